@@ -54,6 +54,7 @@ void h_pentagon_faces_one(void) {
                      out[4] >= 0 && out[4] <= 19, "a pentagon reports five face numbers in 0..19");
     __CPROVER_assert(out[0] != out[1] && out[0] != out[2] && out[0] != out[3] && out[0] != out[4] && out[1] != out[2] && out[1] != out[3] &&
                      out[1] != out[4] && out[2] != out[3] && out[2] != out[4] && out[3] != out[4], "the five faces of a pentagon are distinct");
+    __CPROVER_assert(sf_face_ring5(out), "the five faces of a pentagon are the ring of faces around one icosahedron vertex");
     __CPROVER_assert(0, "canary pentagon faces one");
 }
 #endif
